@@ -172,6 +172,10 @@ def finish(module, prop, tier, seed, results, inconclusive, wall, replay):
                       default=repr)
         print(f"VIOLATION property={prop} replay={path}")
         print(f"  key={v['key']}: {v['msg'][:600]}")
+        others = sorted({str(c.get('seed')) + (':' + c['family'] if c.get('family') else '') for c, o in new
+                         if o['key'] == v['key'] and c is not case})
+        if others:
+            print(f"  same key in {len(others)} other case(s): {', '.join(others[:12])}")
         rc = 1
     extra_fn = getattr(module, 'coverage_extra', None)
     extra_values = extra_fn([r for r in results if not r.get('skipped')]) if extra_fn else {}
